@@ -1566,10 +1566,15 @@ func (r *Regex) AllIndex(b []byte) iter.Seq[[2]int] {
 			if start != end {
 				lastMatchEnd = end
 			}
-			if end == pos {
-				pos = stepEmptyMatch(b, pos)
-			} else {
+			switch {
+			case start == end:
+				// Empty match (possibly found ahead of pos, e.g. $ or \b):
+				// resume after it, otherwise it would be yielded again.
+				pos = stepEmptyMatch(b, end)
+			case end > pos:
 				pos = end
+			default:
+				pos++
 			}
 		}
 	}
